@@ -47,6 +47,9 @@ known("K1", "C06", "CorrelationTrendIndicator is not +1 on a strictly increasing
 w = jobs.Relation("range", ("pfe", ECHO, mk("ema", ECHO, [2]), 5), [[F(3)] * 12], dict(lo=F(-1), hi=F(1))).to_json()
 known("K2", "C07", "PolarizedFractalEfficiency leaves [-1,1]: on a constant window it reports N/(N-2) (5/3 for N=5), as the formula fixed by C11 implies (numerator over N-1 steps, denominator over N-2)", w,
       dict(kind="relation", rel="range", view="pfe", never_in_sweep=True))
+w = jobs.Relation("same", mk("cti", ECHO, [4]), [[F(1), F(3), F(2), F(5), F(4)], [F(11), F(13), F(12), F(15), F(14)]], dict(map="id", tol=1e-9)).to_json()
+known("K6", "C12", "CorrelationTrendIndicator is not offset-invariant while its window is still filling (it correlates the values so far against the nominal window length N, i.e. a zero-padded window); from the N-th value on it is. Using the actual count instead makes 2-point warm-up windows exactly +-1, which f64 rounding pushes past the crate's own test assertion last >= -1.0, so this is recorded rather than repaired", w,
+      dict(kind="relation", rel="same", view="cti", never_in_sweep=True))
 for v, nm in (("rsi", "Rsi"), ("myrsi", "MyRSI")):
     wj, f = wit("C07", v, mode="f", rel="range")
     known("K3-C07-" + v, "C07", "%s in f64 leaves its range after a volatile stretch (stale rounding residue in its incrementally maintained sums), e.g. %s" % (nm, f["actual"]), wj,
